@@ -65,7 +65,7 @@ package stack
 //@   ensures implies(protocol == header.TCPProtocolNumber, ghost(tcpSegs) == old(ghost(tcpSegs)) + 1
 //@             && ghost(lastTCPFlags) == int(old(hdr.buf[hdr.usedIdx + 13])) && ghost(lastTCPSeq) == int(be32(old(hdr.buf), hdr.usedIdx + 4)) && ghost(lastTCPAck) == int(be32(old(hdr.buf), hdr.usedIdx + 8)))
 //@   ensures implies(protocol != header.TCPProtocolNumber, ghost(tcpSegs) == old(ghost(tcpSegs)))
-//@   modifies everything()
+//@   modifies everything(), ghost(tcpSegs), ghost(lastTCPFlags), ghost(lastTCPSeq), ghost(lastTCPAck)
 
 // C06 at the hand-over from network to link layer: an IPv4 packet is handed down with a total
 // length field that equals the bytes it carries, and a header checksum that verifies.
